@@ -1,15 +1,15 @@
 SPECIFICATION Spec
 CONSTANTS
   N = 3
-  Policies = {"silent"}
+  Policies = {"throwing"}
   Layouts = {"packed", "strlen"}
-  Chars <- Chars012
-  Lits <- LitsQ3
-  PosDom <- Pos3
-  SubDom <- SubQ
-  OtherVals <- OtherQ3
+  Chars <- Chars12
+  Lits <- LitsN3q
+  PosDom <- Pos3q
+  SubDom <- SubN3q
+  OtherVals <- OtherN3q
   Junk = {9}
-  AliasMode = "none"
+  AliasMode = "repaired"
 CONSTRAINT OtherBound
 VIEW absview
 INVARIANTS RepInv NoAccessOutside
